@@ -30,7 +30,10 @@ def copy_repo():
     dst = os.path.join(scratch_dir(), 'repo')
     if os.path.exists(dst):
         return dst
-    subprocess.run(['rsync', '-a', '--exclude', 'target', '--exclude', '.git', REPO + '/', dst + '/'], check=True)
+    # --no-times: every file of the copy is newer than anything in the shared target directories, so cargo never mistakes the
+    # artefacts of an earlier run (possibly built from a different tree: its unit hash does not depend on the absolute path)
+    # for a fresh build of this one
+    subprocess.run(['rsync', '-a', '--no-times', '--exclude', 'target', '--exclude', '.git', REPO + '/', dst + '/'], check=True)
     return dst
 
 
